@@ -117,7 +117,6 @@ func (b *BalancerFactory) refresh() {
 			renameResultCacheKey(&res, b.resolver.Name())
 			cache := value.(*cacheResult)
 			cache.res.Store(res)
-			atomic.StoreInt32(&cache.expire, 0)
 			b.balancer.Rebalance(res)
 			return true
 		})
